@@ -1383,6 +1383,37 @@ def m_option_method(ex, st, callee, args, dest_ty, frame, depth):
                 out.append((s2, Outcome("ret", ex.mk_enum(dest_ty, "Ok", [some]))))
             else:
                 out.append((s2, Outcome("ret", ex.mk_enum(dest_ty, "Err", [args[1]]))))
+        elif method == "or_else":
+            if vn == "Some":
+                out.append((s2, Outcome("ret", rv)))
+            else:
+                out += ex.call_value(s2, args[1], [], dest_ty, frame, depth)
+        elif method == "or":
+            out.append((s2, Outcome("ret", rv if vn == "Some" else args[1])))
+        elif method == "and":
+            out.append((s2, Outcome("ret", args[1] if vn == "Some" else Enum(dest_ty, bv64(0), {}))))
+        elif method == "filter":
+            if vn == "None":
+                out.append((s2, Outcome("ret", Enum(dest_ty, bv64(0), {}))))
+            else:
+                cell = f"optf{next(ex.counter)}"
+                s2.heap[cell] = some
+                for s3, o in ex.call_value(s2, args[1], [Ref("&T", cell, ())], "bool", frame, depth):
+                    if o.kind != "ret":
+                        out.append((s3, o))
+                        continue
+                    b = ex.as_prim(o.value).e
+                    for cond, val in ((b, rv), (z3.Not(b), Enum(dest_ty, bv64(0), {}))):
+                        if ex.feasible(s3, cond):
+                            s4 = s3.fork()
+                            s4.assume(cond)
+                            out.append((s4, Outcome("ret", val)))
+        elif method == "ok_or_else":
+            if vn == "Some":
+                out.append((s2, Outcome("ret", ex.mk_enum(dest_ty, "Ok", [some]))))
+            else:
+                for s3, o in ex.call_value(s2, args[1], [], "?", frame, depth):
+                    out.append((s3, Outcome("ret", ex.mk_enum(dest_ty, "Err", [o.value])) if o.kind == "ret" else o))
         elif method == "transpose":
             # Option<Result<T,E>> -> Result<Option<T>,E>
             if vn == "None":
